@@ -8,7 +8,7 @@ CONSTANTS
   MaxAdds = 2
   MaxBuilds = 2
   Tick = 3000
-  Even = TRUE
+  Even = FALSE
 INVARIANTS TypeOK SizeBound
 PROPERTIES Contiguous Flags NeverLostAgain NewAppear Cursor Independent
 CHECK_DEADLOCK FALSE
